@@ -12,6 +12,18 @@ Monitors (real constructors, real ``from_node`` / ``update_from_node``, real cop
   appends, lxml attribute sets) while the canonical form of the other instance(s) is watched.
 
 ``mk_copy`` and ``update_from_other_container`` are exercised the same way (keys ``copy_alias.*``).
+
+Round 4 (the PUBLIC read API, not only the raw storage):
+
+* **getter monitor** (``run_cleared``) - every member of a fresh / a fully parsed / a parsed-with-defaults-absent instance is set to ``None`` through
+  its setter and read back through the ATTRIBUTE; a mutable object that is handed out must be neither a class-level object
+  (``getter.class_default.<Class.member>``: ``_default_py_value`` / ``_implied_py_value`` / a default argument of ``__init__``) nor reachable from an
+  independent instance (``getter.shared_object.*``); it is then rewritten like an application does (``if x.M is None: x.M = New(); x.M.a = v``) and
+  the other instance / the defaults are watched.  ``walk`` follows the getters as well, ``mutate`` clears-and-re-reads members with probability
+  ``p_clear``, so the pattern is part of every workload and of the random histories;
+* **re-parse** (``run_reparse``) - ``update_from_node`` into an already populated instance (keys ``shared_object.two_reparses.*``, ``write_through.reparse.*``);
+* **helper / factory methods** (``run_helpers``, found by reflection in ``vf/c12_api.py``): ``mk_metric_value``, ``add_report_part``, ``set_filter``,
+  ``update_from_sdc_location`` ... called on two fresh instances (keys ``shared_object.helper.*``, ``write_through.helper.*``).
 """
 from __future__ import annotations
 
@@ -22,7 +34,7 @@ from decimal import Decimal
 
 from lxml import etree
 
-from .. import core
+from .. import c12_api, core
 from .. import xmlgen as xg
 from ..canon import canon, canon_diff
 from . import c05
@@ -45,8 +57,9 @@ def _immutable(v) -> bool:
     return callable(v) and not hasattr(v, 'sorted_container_properties')
 
 
-def walk(root, max_depth: int = 12) -> dict[int, tuple[str, object, object, str]]:
-    """id -> (path, object, owner object, member name) of every mutable object reachable through ``__dict__`` / containers."""
+def walk(root, max_depth: int = 12, getters: bool = True) -> dict[int, tuple[str, object, object, str]]:
+    """id -> (path, object, owner object, member name) of every mutable object reachable through ``__dict__`` / containers and (``getters``)
+    through the attribute getter of every declared member - what the public read API hands out; on a healthy library these are the stored objects."""
     found: dict[int, tuple] = {}
     stack = [(root, '', None, '', 0)]
     while stack:
@@ -77,6 +90,14 @@ def walk(root, max_depth: int = 12) -> dict[int, tuple[str, object, object, str]
                     continue
                 m = names.get(k, k)
                 stack.append((x, f'{path}.{m}' if path else m, obj, m, depth + 1))
+        if getters:
+            for m in names.values():
+                try:
+                    x = getattr(obj, m)
+                except Exception:  # noqa: BLE001, S112
+                    continue
+                if not _immutable(x) and id(x) not in found:
+                    stack.append((x, f'{path}.{m}' if path else m, obj, m, depth + 1))
     found.pop(id(root), None)
     return found
 
@@ -127,19 +148,29 @@ class Monitor:
             except Exception:  # noqa: BLE001
                 continue
             for name, prop in props:
-                dv = getattr(prop, '_default_py_value', None)
-                if dv is None or _immutable(dv):
-                    continue
                 key = f'{xg.declaring_class(info.cls, name)}.{name}'
-                self.default_by_key.setdefault(key, dv)
-                if id(dv) not in self.defaults:
-                    self.defaults[id(dv)] = (key, '', info.key)
-                    self._default_refs.append(dv)
-                    for _oid, (path, inner, _o, _m) in walk(dv).items():
-                        self.defaults.setdefault(id(inner), (key, path, info.key))
-                        self._default_refs.append(inner)
+                # class-level objects of the descriptor: the default AND the implied value (the getter hands the implied value out as it is)
+                for attr in ('_default_py_value', '_implied_py_value'):
+                    dv = getattr(prop, attr, None)
+                    if dv is None or _immutable(dv):
+                        continue
+                    self.default_by_key.setdefault(key, dv)
+                    self._register_class_level(dv, key, info.key)
+            # mutable default ARGUMENTS of the constructors: one object per process as well
+            for key, dv in c12_api.ctor_default_objects(info.cls, _immutable):
+                self._register_class_level(dv, key, info.key)
         self.ctx.count('baseline.classes', len(self.baseline))
         self.ctx.count('baseline.mutable_class_level_default_objects', len({v[0] for v in self.defaults.values()}))
+
+    def _register_class_level(self, dv, key, class_key):
+        if id(dv) in self.defaults:
+            return
+        self.defaults[id(dv)] = (key, '', class_key)
+        self._default_refs.append(dv)
+        # getters=False: reading through the getters stores values (ExtensionNodeProperty) - never touch the class-level objects themselves
+        for _oid, (path, inner, _o, _m) in walk(dv, getters=False).items():
+            self.defaults.setdefault(id(inner), (key, path, class_key))
+            self._default_refs.append(inner)
 
     def _mask(self, key, c):
         vol = self.volatile.get(key)
@@ -207,7 +238,7 @@ class Monitor:
             if '[' in path.split('.')[-1] and any(wa[o][0] == path[:path.rindex('[')] for o in common if o != oid):
                 continue
             shared_paths += [path, wb[oid][0]]
-            dm = _decl_member(owner, member)
+            dm = _decl_member(owner, member) or type(obj).__name__
             if oid in self.defaults:
                 dkey, inner, _ckey = self.defaults[oid]
                 key = f'shared_default.{dkey}'
@@ -225,12 +256,26 @@ class Monitor:
         return shared_paths
 
     # ---- mutation ------------------------------------------------------------------------------------------------
+    p_clear = 0.1
+
+    def gen_for(self, rng):
+        """one value generator per random stream (constructing a Gen enumerates all classes: not once per nested object)"""
+        cache = self.__dict__.setdefault('_gens', {})
+        hit = cache.get(id(rng))
+        if hit is None or hit[0] is not rng:
+            hit = cache[id(rng)] = (rng, xg.Gen(rng, self.index))
+        return hit[1]
+
     def mutate(self, obj, rng, depth: int = 0) -> int:  # noqa: C901, PLR0912
-        """rewrite every reachable member in place; returns the number of writes"""
+        """rewrite every reachable member in place; returns the number of writes.
+
+        With probability ``p_clear`` a member is first set to None and read back through the ATTRIBUTE, the way applications (and
+        ``LocationContextStateContainer.update_from_sdc_location``) do it: ``if x.M is None: x.M = New()`` and then ``x.M.attr = value`` - when
+        the getter hands out an object instead of None, the nested writes go into THAT object."""
         writes = 0
         if depth > 4 or not hasattr(obj, 'sorted_container_properties'):
             return 0
-        gen = xg.Gen(rng, self.index)
+        gen = self.gen_for(rng)
         cls = type(obj)
         ctx_schema, _ = xg.schema_home(self.index, cls, gen._keys.get(cls))  # noqa: SLF001
         for name, prop in obj.sorted_container_properties():
@@ -241,6 +286,22 @@ class Monitor:
                 value = prop.get_actual_value(obj)
             except Exception:  # noqa: BLE001
                 continue
+            if value is not None and not isinstance(value, list) and self.p_clear and rng.random() < self.p_clear:
+                try:
+                    setattr(obj, name, None)
+                except Exception:  # noqa: BLE001  (ExtensionNodeProperty, AllowedValues: None is refused)
+                    self.ctx.count('mutate.clear_refused')
+                else:
+                    self.ctx.count('mutate.cleared_then_read')
+                    got = getattr(obj, name)
+                    if got is None or _immutable(got):
+                        try:
+                            setattr(obj, name, value)  # the None-branch: the member is filled again (here: with the object it held before)
+                        except Exception:  # noqa: BLE001
+                            setattr(obj, prop._local_var_name, value)  # noqa: SLF001
+                    else:
+                        self.ctx.count('mutate.cleared_member_read_as_object')
+                        value = got                    # no None-branch: the application writes into what it was handed
             try:
                 if isinstance(value, list):
                     for x in list(value)[:2]:
@@ -327,13 +388,184 @@ class Monitor:
                 out.append((name, prop, names))
         return out
 
-    def parse(self, info, codec, text, absent, template):
+    def node_of(self, info, codec, text, absent):
+        """a NEW document of ``text`` with the members ``absent`` removed -> the node the class is read from"""
         doc = etree.fromstring(text)
         node = doc if info.key == 'mex_types.Metadata' else codec.locate(doc)
         target = node if info.key != 'mex_types.Metadata' else node[0]
         for _name, prop, names in absent:
             c05._remove(target, prop, names)  # noqa: SLF001
-        return codec.read(node, template)
+        return node
+
+    def parse(self, info, codec, text, absent, template):
+        return codec.read(self.node_of(info, codec, text, absent), template)
+
+    # ---- S2b: update_from_node into a populated instance ---------------------------------------------------------------------
+    def run_reparse(self, info, codec, text, absent, template, rng, family):
+        ctx = self.ctx
+        names_absent = sorted(n for n, _p, _n in absent)
+        pair = []
+        for _ in range(2):
+            try:
+                r = self.parse(info, codec, text, (), template)             # populated: every member of the document present
+                r.update_from_node(self.node_of(info, codec, text, absent))  # ... read again, from another node, members absent
+                pair.append(r)
+            except Exception:  # noqa: BLE001  (classes whose from_node is not the generic one may refuse; not this property)
+                ctx.count('reparse.refused')
+                return
+        ctx.count('reparse.pairs')
+        ctx.case(('reparse', info.key, tuple(names_absent) if len(names_absent) <= 2 else len(names_absent)))
+        relation = f'two populated instances updated from different nodes with update_from_node, absent={names_absent}'
+        fresh = self.builder.construct(info.cls)
+        shared = self.check_alias(pair[0], pair[1], relation, info, {'absent': names_absent}, label='two_reparses')
+        shared += self.check_alias(pair[0], fresh, 'a re-parsed and a fresh instance', info, {'absent': names_absent}, label='reparsed_vs_fresh')
+        self.check_write_through(pair[0], [pair[1], fresh], relation, info, rng, 'write_through.reparse', shared)
+        self.recheck_baseline(f'update_from_node of a populated {info.name} with {names_absent} absent and rewriting all members of the result', family)
+
+    # ---- S4: what the attribute getter hands out after None was assigned -------------------------------------------------------
+    def run_cleared(self, info, codec, texts, rng, family):  # noqa: C901, PLR0912, PLR0915
+        ctx = self.ctx
+        cls = info.cls
+        subjects = []
+        try:
+            subjects.append(('fresh', self.builder.construct(cls), self.builder.construct(cls)))
+        except Exception:  # noqa: BLE001
+            return
+        by_mode = {}
+        for mode, text, template in texts:
+            by_mode.setdefault(mode, (text, template))
+        for mode, kind in (('max', 'parsed'), ('min', 'parsed_defaults_absent')):
+            if mode not in by_mode:
+                continue
+            text, template = by_mode[mode]
+            try:
+                absent = ()
+                if kind == 'parsed_defaults_absent':
+                    node = self.node_of(info, codec, text, ())
+                    target = node if info.key != 'mex_types.Metadata' else node[0]
+                    absent = tuple(r for r in self.removable(info, codec, target) if getattr(r[1], '_default_py_value', None) is not None)
+                subjects.append((kind, self.parse(info, codec, text, absent, template), self.parse(info, codec, text, absent, template)))
+            except Exception:  # noqa: BLE001
+                ctx.count('parse.refused')
+        for kind, x, other in subjects:
+            before = canon(other)
+            reach_other = walk(other)
+            reported = False
+            for name, prop in x.sorted_container_properties():
+                if 'CurrentTimestampAttributeProperty' in xg.mro_names(prop):
+                    continue
+                try:
+                    old = prop.get_actual_value(x)
+                    setattr(x, name, None)
+                except Exception:  # noqa: BLE001  (lists of some kinds, ExtensionNodeProperty, AllowedValues refuse None)
+                    ctx.count('clear.none_refused')
+                    continue
+                ctx.count('clear.none_assigned')
+                try:
+                    got = getattr(x, name)
+                except Exception:  # noqa: BLE001
+                    ctx.count('clear.read_raised')
+                    got = None
+                dv = getattr(prop, '_default_py_value', None)
+                if dv is not None and not _immutable(dv):
+                    ctx.count('clear.reads_of_member_with_default_object')
+                if got is not None and not _immutable(got):
+                    ctx.count('clear.mutable_object_handed_out')
+                    ids = [id(got), *walk(got, getters=False)]
+                    dm = _decl_member(x, name)
+                    detail = {'class': info.key, 'subject': kind, 'member': name, 'object_type': type(got).__name__}
+                    hit = [k for k in ids if k in self.defaults]
+                    if hit:
+                        dkey, inner, _ckey = self.defaults[hit[0]]
+                        self.shared_defaults_found.add(dkey)
+                        reported = True
+                        ctx.witness(f'getter.class_default.{dkey}',
+                                    f'{info.name} ({kind}): after None was assigned to {name}, reading the attribute hands out the class-level '
+                                    f'object of {dkey}' + (f' (inner object {inner})' if inner else '') + ' - a nested write through it alters every later instance',
+                                    detail)
+                    elif any(k in reach_other for k in ids):
+                        reported = True
+                        ctx.witness(f'getter.shared_object.{dm}',
+                                    f'{info.name} ({kind}): after None was assigned to {name}, reading the attribute hands out an object that an '
+                                    f'independently obtained {info.name} holds', detail)
+                    # the application writes into what it was handed ("if x.M is None" was False)
+                    n = 0
+                    if hasattr(got, 'sorted_container_properties'):
+                        n = self.mutate(got, rng, 1)
+                    elif isinstance(got, list):
+                        got.append(copy.deepcopy(got[0]) if got else 'verif')
+                        n = 1
+                    ctx.count('mutate.writes', n)
+                try:
+                    setattr(x, name, old)
+                except Exception:  # noqa: BLE001
+                    setattr(x, prop._local_var_name, old)  # noqa: SLF001
+            ctx.case(('cleared', info.key, kind))
+            now = canon(other)
+            if now != before:
+                for path, left, right in canon_diff(before, now, limit=3):
+                    if reported:
+                        ctx.count('write_through.confirms_reported_shared_object')
+                        continue
+                    ctx.witness(f'write_through.getter.{_blame_path(other, path)}',
+                                f'{info.name} ({kind}): assigning None to a member, reading it back and writing into the object handed out changed an '
+                                f'independent instance at {path}: {c05._brief(left)} -> {c05._brief(right)}',  # noqa: SLF001
+                                {'class': info.key, 'subject': kind, 'path': path})
+            self.recheck_baseline(f'None assigned to every member of a {kind} {info.name} in turn, the member read back through the attribute and '
+                                  'rewritten', family)
+
+    # ---- S5: helper / factory methods ----------------------------------------------------------------------------------------
+    def run_helpers(self, info, rng, family, sample: float = 1.0):  # noqa: C901
+        ctx = self.ctx
+        cls = info.cls
+        calls = c12_api.helper_calls(cls)
+        if not calls:
+            return 0
+        try:
+            a, b = self.builder.construct(cls), self.builder.construct(cls)
+        except Exception:  # noqa: BLE001
+            return 0
+        ra, rb, done = [], [], []
+        for name, is_cm, factories in calls:
+            if sample < 1.0 and rng.random() > sample:
+                continue
+            try:
+                fa, fb = (getattr(cls, name), getattr(cls, name)) if is_cm else (getattr(a, name), getattr(b, name))
+                xa, xb = fa(*[f() for f in factories]), fb(*[f() for f in factories])
+            except Exception:  # noqa: BLE001  (mk_metric_value with a value present, update_descriptor_version without descriptor ...)
+                ctx.count('helper.call_refused')
+                continue
+            ctx.count('helper.calls')
+            done.append(name)
+            used = ctx.extra.setdefault('helper_methods_called', [])
+            if name not in used:
+                used.append(name)
+            if xa is not None and not _immutable(xa) and not _immutable(xb):
+                ra.append(xa)
+                rb.append(xb)
+        if not done:
+            return 0
+        ctx.case(('helper', info.key, tuple(done)))
+        relation = f'two fresh instances, each after its own calls of {done}'
+        shared = self.check_alias([a, *ra], [b, *rb], relation, info, {'helpers': done}, label='helper')
+        watched = [w for w in [b, *rb] if hasattr(w, 'sorted_container_properties')]
+        before = [canon(w) for w in watched]
+        n = sum(self.mutate(w, rng) for w in [a, *ra] if hasattr(w, 'sorted_container_properties'))
+        ctx.count('mutate.writes', n)
+        ctx.count('write_through.watched', len(watched))
+        for w, was in zip(watched, before):
+            now = canon(w)
+            if now == was:
+                continue
+            for path, left, right in canon_diff(was, now, limit=3):
+                if shared:
+                    ctx.count('write_through.confirms_reported_shared_object')
+                    continue
+                ctx.witness(f'write_through.helper.{_blame_path(w, path)}',
+                            f'{info.name}: {relation}: writing into one changed the other at {path}: {c05._brief(left)} -> {c05._brief(right)}',  # noqa: SLF001
+                            {'class': info.key, 'helpers': done, 'path': path})
+        self.recheck_baseline(f'helper methods {done} on a fresh {info.name} and rewriting all members', family)
+        return len(done)
 
     def run_class(self, info, tier_quick: bool):  # noqa: C901, PLR0912, PLR0915
         ctx = self.ctx
@@ -392,8 +624,14 @@ class Monitor:
                 shared += self.check_alias(p1, fresh, 'a parsed and a fresh instance', info, {'absent': list(names_absent)}, label='parsed_vs_fresh')
                 self.check_write_through(p1, [p2, fresh], relation, info, rng, 'write_through.parse', shared)
                 self.recheck_baseline(f'parsing a {info.name} with {list(names_absent)} absent and rewriting all members of the result', family)
+                if (not absent or (len(absent) == len(removable) and len(absent) > 1) or (with_default and len(absent) == 1)
+                        or (with_default and not tier_quick and rng.random() < 0.25)):
+                    self.run_reparse(info, codec, text, absent, template, rng, family)
         if has_defaults:
             ctx.count('classes.with_defaulted_member_parsed_absent')
+        # ---- S4 / S5: the attribute getters after None-assignment; helper and factory methods ---------------------------------
+        self.run_cleared(info, codec, texts, rng, family)
+        self.run_helpers(info, rng, family)
         # ---- S3: copies ------------------------------------------------------------------------------------------
         for mode, text, template in texts[:3]:
             try:
@@ -537,16 +775,18 @@ def w_classes(ctx: core.Ctx, arg):
 def w_sequences(ctx: core.Ctx, arg):
     """random histories: construct / parse-with-absent-members / deepcopy / deep mutation in random order over a pool of instances"""
     mon = Monitor(ctx)
+    mon.p_clear = 0.25
     rng = ctx.rng('c12', 'seq', arg['i'])
     infos = [i for i in mon.instantiable]
+    with_helpers = [i for i in infos if c12_api.helper_calls(i.cls)]
     for s in range(arg['n']):
         pool = []     # (info, instance)
         ops_done = []
         inputs_cache = {}
         for _step in range(arg['steps']):
-            op = rng.choice(('construct', 'parse', 'parse', 'deepcopy', 'mutate', 'mutate'))
+            op = rng.choice(('construct', 'parse', 'parse', 'reparse', 'deepcopy', 'mk_copy', 'helper', 'mutate', 'mutate', 'mutate'))
             try:
-                if op == 'construct' or not pool and op in ('deepcopy', 'mutate'):
+                if op == 'construct' or not pool and op in ('deepcopy', 'mk_copy', 'mutate'):
                     info = rng.choice(infos)
                     pool.append((info, mon.builder.construct(info.cls)))
                     op = 'construct'
@@ -563,9 +803,40 @@ def w_sequences(ctx: core.Ctx, arg):
                     removable = mon.removable(info, codec, node if info.key != 'mex_types.Metadata' else node[0])
                     absent = [r for r in removable if rng.random() < 0.5]
                     pool.append((info, mon.parse(info, codec, text, absent, template)))
+                elif op == 'reparse':
+                    # update_from_node into an instance of the pool (or a new populated one), random members absent
+                    cands = [(i, x) for i, x in pool if i.key in inputs_cache and inputs_cache[i.key][1]]
+                    if not cands:
+                        continue
+                    info, inst = rng.choice(cands)
+                    codec, texts = inputs_cache[info.key]
+                    mode, text, template = rng.choice(texts)
+                    node = mon.node_of(info, codec, text, ())
+                    removable = mon.removable(info, codec, node if info.key != 'mex_types.Metadata' else node[0])
+                    absent = [r for r in removable if rng.random() < 0.5]
+                    others = [(i, x) for i, x in pool if x is not inst]
+                    before = [canon(x) for _i, x in others]
+                    inst.update_from_node(mon.node_of(info, codec, text, absent))
+                    for (oi, ox), was in zip(others, before):
+                        ctx.count('sequence.instances_watched')
+                        if canon(ox) != was:
+                            for path, _l, _r in canon_diff(was, canon(ox), limit=2):
+                                ctx.witness(f'write_through.sequence.{_blame_path(ox, path)}',
+                                            f'update_from_node of a {info.name} changed an independently obtained {oi.name} at {path}',
+                                            {'history': ops_done[-12:], 'writer': info.key, 'victim': oi.key, 'path': path})
                 elif op == 'deepcopy':
                     info, inst = rng.choice(pool)
                     pool.append((info, copy.deepcopy(inst)))
+                elif op == 'mk_copy':
+                    cands = [(i, x) for i, x in pool if hasattr(x, 'mk_copy')]
+                    if not cands:
+                        continue
+                    info, inst = rng.choice(cands)
+                    pool.append((info, inst.mk_copy(copy_node=rng.random() < 0.5)))
+                elif op == 'helper':
+                    info = rng.choice(with_helpers)
+                    if not mon.run_helpers(info, rng, [info], sample=0.6):
+                        continue
                 else:
                     idx = rng.randrange(len(pool))
                     info, inst = pool[idx]
@@ -601,6 +872,10 @@ def w_sequences(ctx: core.Ctx, arg):
 
 
 def dispatch(ctx: core.Ctx, job):
+    if job[0] == 'multi':     # several small jobs in one worker (the machine-wide worker slots are acquired per worker)
+        for sub in job[1]:
+            dispatch(ctx, sub)
+        return
     globals()[job[0]](ctx, job[1])
 
 
@@ -610,14 +885,19 @@ def run(ctx: core.Ctx):
                 'writes for a minimal, a maximal and random instance(s): every single absence of a present member (thorough: + all-absent, up to 40 '
                 'random subsets each of size 2, 3, 4) parsed twice from different nodes; deepcopy / mk_copy / update_from_other_container of a parsed '
                 'instance; after each: aliasing walk, rewrite of every reachable member of one instance while the others are watched, and '
-                'canon(cls()) of ALL classes compared with the value at start-up. thorough adds random histories over a pool of instances. '
+                'canon(cls()) of ALL classes compared with the value at start-up. Per class also: update_from_node into populated instances (members '
+                'absent); None assigned to every member of a fresh / parsed / parsed-with-defaults-absent instance, the member read back through the '
+                'attribute and rewritten; the helper / factory methods of the class on two fresh instances. The rewrite clears-and-re-reads members '
+                'with p=0.1. Random histories over a pool of instances: construct / parse / update_from_node / deepcopy / mk_copy / helper calls / '
+                'rewrite (clear-and-re-read p=0.25). '
                 'distinct = (activity kind, class, input kind, set of absent members / copy operation); non-trivial = at least one pair of instances compared')
     ctx.extra['classes_enumerated'] = len(infos)
     order = sorted(infos, key=lambda i: -len(c05._safe_props(i.cls)))  # noqa: SLF001
-    njobs = 16 if ctx.quick else 32
+    njobs = 8 if ctx.quick else 32
     jobs = [['w_classes', {'classes': [i.key for i in order[k::njobs]]}] for k in range(njobs)]
     nseq = ctx.pick(4, 16)
-    jobs += [['w_sequences', {'i': k, 'n': ctx.pick(6, 40), 'steps': ctx.pick(30, 60)}] for k in range(nseq)]
+    seqs = [['w_sequences', {'i': k, 'n': ctx.pick(6, 40), 'steps': ctx.pick(30, 60)}] for k in range(nseq)]
+    jobs += [['multi', seqs[0::2]], ['multi', seqs[1::2]]] if ctx.quick else seqs
     core.fanout(ctx, MODULE, 'dispatch', jobs, timeout=ctx.pick(600.0, 3000.0))
     ctx.floor('classes.exercised', int(len(infos) * 0.9))
     ctx.floor('baseline.rechecks', 20000)
@@ -628,10 +908,18 @@ def run(ctx: core.Ctx):
     ctx.floor('copy.deepcopy', 300)
     ctx.floor('copy.mk_copy', 100)
     ctx.floor('sequence.op.mutate', 100)
+    ctx.floor('clear.none_assigned', 3000)
+    ctx.floor('clear.reads_of_member_with_default_object', 60)
+    ctx.floor('mutate.cleared_then_read', 2000)
+    ctx.floor('reparse.pairs', 300)
+    ctx.floor('helper.calls', 150)
     ctx.assumptions += [
         'the XML inputs are documents the library itself wrote for generated instances, with members removed by the harness; '
         'absence of a member that the schema makes mandatory is included (the readers do not validate)',
         'references that are shared on purpose are not followed: ContainerBase.node (the source element) and AbstractStateContainer.descriptor_container',
         'mutable = everything except str / bytes / numbers / bool / None / enum members / QName / tuples of those / frozen dataclasses / datetime objects',
         'copy.copy() is shallow by definition and not examined; copy.deepcopy(), mk_copy() and update_from_other_container() are',
+        'a getter that hands out a NEW object on every read shares nothing: only objects that are class-level (default / implied value / constructor '
+        'default argument) or reachable from an independent instance are reported',
+        'helper methods get a new argument object for every call (an argument object the caller passes twice is the caller\'s sharing)',
     ]
